@@ -278,6 +278,56 @@ def clause8_epoll(ctx, P):
         ctx.ob("C06.8 R-BOUND", run, "epoll_wait:maxevents", ok, "epoll_wait may harvest %s events into an array of %s bytes" % (k, ds[0] if ds else "?"))
 
 
+def clause10_stack_arrays(ctx, P):
+    """writes into fixed-size local byte arrays stay inside them: for every store / memcpy / memset whose destination is a
+    local array plus an offset that is affine in parameters, constants and bounded remainders, offset >= 0 and
+    offset + width <= size is entailed by the path (affine path evaluation). Offsets that depend on other values (results of
+    calls, loaded fields) are not decided by this clause."""
+    from ..core.pathmem import PathEval, a_add, a_fmt
+    n = 0
+    nfun = 0
+    for f in P.own_functions():
+        arrs = {i.id: i for i in f.all_insts() if i.op == "alloca" and i.size and i.at and i.at.startswith("[") and i.at.endswith("x i8]")}
+        if not arrs:
+            continue
+        try:
+            paths = P.paths(f, loop_iters=1, max_paths=20000)
+        except AnalysisBroken:
+            ctx.note("%s: too many paths for the local-array clause" % f.key)
+            continue
+        nfun += 1
+        bad = None
+        for p_ in paths:
+            pe = PathEval(P, f, Q.PathView(P, f, p_))
+            for e in pe.events:
+                if e.kind == "store" and isinstance(e.data["cell"], tuple) and e.data["cell"][0] == "ptrcell" and e.data["cell"][1] == "mem":
+                    addr = ({k: c for k, c in e.data["cell"][2][0]}, e.data["cell"][2][1])
+                    width = ({}, 1)
+                elif e.kind == "call" and e.data["callee"] in ("memcpy", "memmove", "memset") and len(e.data["args"]) >= 3:
+                    addr = e.data["args"][0]
+                    width = e.data["args"][2]
+                else:
+                    continue
+                al = [l for l in addr[0] if l[0] == "alloca" and l[1] in arrs and addr[0][l] == 1]
+                if len(al) != 1:
+                    continue
+                off = ({l: c for l, c in addr[0].items() if l != al[0]}, addr[1])
+                if any(l[0] not in ("param", "rem", "quot") for l in list(off[0]) + list(width[0])):
+                    continue   # not decided here
+                n += 1
+                size = arrs[al[0][1]].size
+                lo = pe.entails(off, upto=e.pos)
+                hi = pe.entails(a_add(({}, size), a_add(off, width), -1), upto=e.pos)
+                if not (lo and hi):
+                    bad = (pe, e, off, width, size, arrs[al[0][1]].name)
+        ctx.ob("C06.7 R-BOUND", f, "writes-into-local-arrays-stay-inside", bad is None,
+               "%s bytes are written at offset %s of the %d-byte local array '%s' (%s) and nothing on the path keeps that inside the "
+               "array" % (a_fmt(bad[3]), a_fmt(bad[2]), bad[4], bad[5], bad[1].inst.loc) if bad else "",
+               witness=bad[0].view.witness() if bad else None)
+    if nfun < 5 or n < 8:
+        raise AnalysisBroken("local byte arrays: %d functions, %d decided writes" % (nfun, n))
+
+
 def clause9_unmask(ctx, P):
     """unmask_payload: the length arithmetic of the aligned fast path does not wrap: every unsigned subtraction outside the
     loops (bytes before the first aligned word, number of whole words, bytes after the last) is non-negative on every path,
@@ -322,6 +372,7 @@ def run(ctx):
     for cfg in ctx.configs():
         P, cg = cfg.P, cfg.cg
         clause9_unmask(ctx, P)
+        clause10_stack_arrays(ctx, P)
         clause1_snprintf(ctx, P)
         c16.clause6_slots(ctx, P, cg)
         c12.clause2_callbacks(ctx, P, cg)
